@@ -33,6 +33,9 @@ func runC05(c *mon.Ctx) {
 		if i%4 == 0 {
 			c05SnapshotVandal(c, r.Fork(14))
 		}
+		if i%4 == 1 {
+			c05Alphabets(c, r.Fork(15))
+		}
 	})
 }
 
@@ -618,4 +621,57 @@ func c05SnapshotVandal(c *mon.Ctx, r *mon.Rand) {
 		}
 	})
 	c.Event("snapshot-edits-checked", 1)
+}
+
+// c05Alphabets: sanitize options whose key, value and name alphabets differ
+// (as the M3 defaults do: '.' and '-' are fine in values, not in keys). Tag
+// values that are valid as VALUES pass unchanged, so {host:"a.b"} and
+// {host:"a_b"} (and "a-b") are three identities: three scopes, three
+// deliveries under their own tags.
+func c05Alphabets(c *mon.Ctx, r *mon.Rand) {
+	so := tally.SanitizeOptions{
+		NameCharacters:       tally.ValidCharacters{Ranges: tally.AlphanumericRange, Characters: tally.UnderscoreDashDotCharacters},
+		KeyCharacters:        tally.ValidCharacters{Ranges: tally.AlphanumericRange, Characters: tally.UnderscoreCharacters},
+		ValueCharacters:      tally.ValidCharacters{Ranges: tally.AlphanumericRange, Characters: tally.UnderscoreDashDotCharacters},
+		ReplacementCharacter: '_',
+	}
+	cached := r.Bool()
+	opts := tally.ScopeOptions{SanitizeOptions: &so, OmitCardinalityMetrics: true}
+	var rec *mon.Recorder
+	if cached {
+		cr := mon.NewCachedRec(false)
+		rec, opts.CachedReporter = cr.Recorder, cr
+	} else {
+		pr := mon.NewPlainRec(false)
+		rec, opts.Reporter = pr.Recorder, pr
+	}
+	root, _ := vNewRoot(opts, 0, uint(r.Range(0, 3)))
+	base := r.Ident(3)
+	vals := []string{base + ".b", base + "_b", base + "-b"}
+	key := r.Pick("host", "k_1")
+	desc := map[string]interface{}{"scenario": "value alphabet wider than key alphabet", "values": vals, "key": key, "cached": cached}
+	c.Eval(1)
+	var scopes []tally.Scope
+	c.Guard("panic-alphabets", func() interface{} { return desc }, func() {
+		for i, v := range vals {
+			sc := root.Tagged(map[string]string{key: v})
+			scopes = append(scopes, sc)
+			sc.Counter("m").Inc(int64(1) << uint(i))
+		}
+		tally.VerifReportPass(root)
+	})
+	for i := range scopes {
+		for j := i + 1; j < len(scopes); j++ {
+			if scopes[i] == scopes[j] {
+				c.Violation("identity-merge/alphabets", map[string]interface{}{"why": fmt.Sprintf("Tagged({%s:%q}) and Tagged({%s:%q}) returned one scope; both values are valid tag values under the configured options", key, vals[i], key, vals[j]), "case": desc})
+			}
+		}
+	}
+	_, agg, _ := rec.Snapshot()
+	for i, v := range vals {
+		if got := agg[mon.IdentKey("m", map[string]string{key: v})].Sum; got != int64(1)<<uint(i) {
+			c.Violation("delivered-under-other-identity/alphabets", map[string]interface{}{"why": fmt.Sprintf("counter of the scope tagged {%s:%q}: %d delivered under these tags, %d recorded", key, v, got, int64(1)<<uint(i)), "case": desc})
+		}
+	}
+	c.Event("alphabet-cases", 1)
 }
